@@ -52,12 +52,7 @@ fn short_prefix(evs: &[Ev]) -> usize {
     n
 }
 
-fn scratch_dir() -> std::path::PathBuf {
-    let exe = std::env::current_exe().expect("current_exe");
-    let dir = exe.parent().expect("exe dir").join("scratch");
-    std::fs::create_dir_all(&dir).expect("scratch dir");
-    dir
-}
+use crate::util::scratch_dir;
 
 static COUNTER: AtomicUsize = AtomicUsize::new(0);
 
@@ -426,10 +421,39 @@ pub fn dispatch_prop(toks: &[&str]) -> Option<String> {
             Some(prop_same("from_path", Some(via_path(&b)), &b))
         }
         ["faultsched", evs @ ..] => Some(prop_fault(evs)),
+        ["pathfault", what] => Some(prop_pathfault(what)),
         ["reftext", h] => Some(prop_reftext(&unhex(h))),
         ["enc4", h] => Some(prop_enc4(&unhex(h))),
         _ => None,
     }
+}
+
+/// C09 through `from_path`: a file that opens but whose reads fail (`/proc/self/mem` at offset 0: EIO; a directory:
+/// EISDIR) must give `Err` from every decoder, never a (default) map.
+fn prop_pathfault(what: &str) -> String {
+    use std::io::Read;
+    let path = match what {
+        "mem" => std::path::PathBuf::from("/proc/self/mem"),
+        "dir" => scratch_dir(),
+        _ => return "SKIP unknown".to_owned(),
+    };
+    // premise: the path opens and the first read fails
+    let Ok(mut f) = std::fs::File::open(&path) else { return "SKIP cannot-open".to_owned() };
+    let mut buf = [0u8; 16];
+    let Err(want) = f.read(&mut buf) else { return "SKIP read-succeeds".to_owned() };
+    macro_rules! chk {
+        ($($t:ty),*) => {$(
+            match rosu_map::from_path::<$t>(&path) {
+                Err(e) if e.kind() == want.kind() => {}
+                Err(e) => return format!("FAIL from_path::<{}> returns err {} for a reader failing with {}", stringify!($t), kind_tag(e.kind()), kind_tag(want.kind())),
+                Ok(_) => return format!("FAIL from_path::<{}> returns a map although every read fails with {}", stringify!($t), kind_tag(want.kind())),
+            }
+        )*};
+    }
+    chk!(rosu_map::Beatmap, rosu_map::section::general::General, rosu_map::section::editor::Editor, rosu_map::section::metadata::Metadata,
+         rosu_map::section::difficulty::Difficulty, rosu_map::section::events::Events, rosu_map::section::colors::Colors,
+         rosu_map::section::timing_points::TimingPoints, rosu_map::section::hit_objects::HitObjects);
+    "OK".to_owned()
 }
 
 #[allow(dead_code)]
